@@ -12,6 +12,18 @@ def main() -> int:
     from dsim import driver
 
     driver._worker_init()
+    if plan.get("child_imports") == "all":
+        # a user who touched other parts of the library first: importing a module must not change what training computes
+        import importlib
+        import pkgutil
+
+        import lerax
+
+        for m in pkgutil.walk_packages(lerax.__path__, "lerax."):
+            try:
+                importlib.import_module(m.name)
+            except Exception:  # noqa: BLE001  (optional dependencies)
+                pass
     from dsim.scenarios.train import Runner, leaves_digest
 
     r = Runner({**plan["cls"], "observer": "none"})
